@@ -145,7 +145,8 @@ def run_tlc(module: str, cfg: str | Path, work: Path, *, workers: int | str = "a
     t0 = time.time()
     try:
         for attempt in range(3):
-            p = subprocess.run(cmd, cwd=str(spec_dir), env=e, capture_output=True, text=True, timeout=timeout)
+            with _JvmSlots(1 if heap.endswith("m") else 4):
+                p = subprocess.run(cmd, cwd=str(spec_dir), env=e, capture_output=True, text=True, timeout=timeout)
             if p.returncode not in (-9, 137):
                 break
             # killed from outside (the kernel's OOM killer when other jobs share the machine): wait and try again
@@ -156,6 +157,43 @@ def run_tlc(module: str, cfg: str | Path, work: Path, *, workers: int | str = "a
     finally:
         shutil.rmtree(meta, ignore_errors=True)
     return TlcResult(p.returncode, p.stdout + p.stderr, time.time() - t0)
+
+
+class _JvmSlots:
+    """Machine-wide memory budget for JVMs (checks may run side by side): 36 slots of ~1.5 GB, taken with flock on files
+    under the temp dir (released by the kernel if the holder dies).  A validator JVM takes 1 slot, a model-checking JVM 4."""
+    TOTAL = int(os.environ.get("VERIF_JVM_SLOTS", "36"))
+
+    def __init__(self, k: int):
+        self.k, self.held = max(1, min(k, self.TOTAL)), []
+
+    def __enter__(self):
+        import fcntl
+        d = Path(tempfile.gettempdir()) / "verif_jvm_slots"
+        d.mkdir(exist_ok=True)
+        t0 = time.time()
+        while True:
+            for i in range(self.TOTAL):
+                if len(self.held) >= self.k:
+                    break
+                fd = os.open(d / f"slot_{i}", os.O_CREAT | os.O_RDWR, 0o666)
+                try:
+                    fcntl.flock(fd, fcntl.LOCK_EX | fcntl.LOCK_NB)
+                    self.held.append(fd)
+                except OSError:
+                    os.close(fd)
+            if len(self.held) >= self.k or time.time() - t0 > 1800:
+                return self                       # (after 30 min of waiting go ahead anyway: never deadlock a check)
+            for fd in self.held:                  # all-or-nothing: do not sit on a partial allocation
+                os.close(fd)
+            self.held = []
+            time.sleep(1.0 + (os.getpid() % 7) / 5)
+
+    def __exit__(self, *a):
+        for fd in self.held:
+            os.close(fd)
+        self.held = []
+        return False
 
 
 def tlc_must_pass(res: TlcResult, what: str):
